@@ -3,7 +3,7 @@ E1_TECH = "runtime monitoring: real reconcilers + real admission webhooks + real
 E1_NOTE = "Trusts the environment actors (Deployment/ReplicaSet/kubelet and CloneSet models), the simulated API server semantics, the re-stated inline watch predicates and the reference interpreters (route / exposure / planned) written from the documentation. Grace periods set to 0 via verif hooks."
 
 claim("C01", "E1-clustersim", "exploration", E1_TECH + "; plus exhaustive arithmetic driver over the seven BatchRelease controls (real CalculateBatchContext + UpgradeBatch, independent exposure interpreter)",
-      "Held on the explored executions: closed-loop scenarios over Deployment (canary, blue-green) and CloneSet (partition, blue-green) with scale / jump / pause events, every controller write to a workload knob judged; plus the complete domain replicas 0..120 x steps {0..122} U {0%..100%} for each control from the state the real Initialize leaves (exhaustive for that domain).",
+      "Held on the explored executions: closed-loop scenarios over Deployment (canary, blue-green) and CloneSet (partition, blue-green) with scale / jump / pause events, every controller write to a workload knob judged (bound, monotone, nothing raised while a superseded release is reset, the webhook's hold not lifted for a revision the Rollout has not taken up - one known finding there); plus the complete domain replicas 0..120 x steps {0..122} U {0%..100%} for each control from the state the real Initialize leaves (exhaustive for that domain).",
       E1_NOTE, "DESIGN.md §4 C01")
 claim("C02", "E1-clustersim", "exploration", E1_TECH + "; trace automaton over persisted Rollout status",
       "Held on the explored executions: every cursor change of every run is checked for upgrade evidence (own pod count), routed report and pause discharge, or a preceding user request; writes while paused are checked.",
@@ -15,8 +15,11 @@ claim("C04", "E1-clustersim", "exploration", E1_TECH + "; the void predicate is 
       "Held on the explored executions (success, rollback, supersession, disable, delete, scale, jump) for every provider; one known finding (jump back to step 1 after all stable pods were replaced).",
       E1_NOTE, "DESIGN.md §4 C04")
 claim("C05", "E1-clustersim", "exploration", E1_TECH + "; residue / user-intent comparison at quiescence after the terminal state",
-      "Held on the explored executions: exit events injected at random (step, sub-state); residue set, user-owned fields and convergence checked at quiescence. One known finding (exit before the BatchRelease exists leaves the workload held).",
+      "Held on the explored executions: exit events injected at random (step, sub-state); residue set, user-owned fields and convergence checked at quiescence. Known findings: an exit that arrives when no live BatchRelease exists leaves the workload held; a revision published during the last cleanup task of a completed release is never released.",
       E1_NOTE, "DESIGN.md §4 C05")
+claim("C06", "E1-clustersim", "fault_enumeration", E1_TECH + "; fault-injecting client interposer and crash/restart of every reconciler (grace and creation expectations reset, queues dropped, objects replayed as create events); each faulty run judged against the fault-free run of the same scenario",
+      "Per tier a fixed set of baseline scenarios, one per workload kind x rolling style at least (6 quick / 18 thorough): a crash after EVERY controller write of the baseline, an error / conflict / lost-response / timeout at EVERY controller write call (each call at least one kind in the quick tier, all four in the thorough tier), errors / timeouts at sampled (quick) or all (thorough) read calls, and random multi-fault plans. Enumeration is complete for single crashes and single write faults of the chosen baselines, not for the space of scenarios.",
+      E1_NOTE + " Faults hit controller actors only; a lost response commits the write and returns a timeout. Oracles: monitors silent unless the baseline shows the same fingerprint, still terminal within the budget, same configuration projection at each 'step k paused' sync point, same final projection.", "DESIGN.md §4 C06, §11.1")
 claim("C07", "E1-clustersim", "exploration", E1_TECH + "; bounded-progress + lost-wake-up detection with a recording work-queue fed only by the real handlers / Requeue / RequeueAfter / errors; plus provider fixed-point drivers and readiness-sufficiency arithmetic",
       "Liveness restated as bounded progress: terminal state within 60*(steps+5)*(replicas+6) scheduler actions, no state with nothing enabled before terminal; every provider re-applies a done step with zero writes; the written knob always suffices for IsBatchReady on the enumerated domain.",
       E1_NOTE + " No finite run decides 'eventually'.", "DESIGN.md §4 C07")
@@ -43,13 +46,16 @@ claim("C15", "E2-drivers", "exploration", "runtime monitoring: real custom netwo
       "Held on 3k (quick) / 100k (thorough) cases.", "Routes with a match block are not judged for the split (the built-in script skips them by design).", "DESIGN.md §4 C13-C15")
 claim("C16", "E3-sandbox", "exploration", "runtime monitoring of the Lua sandbox: hostile corpus + grammar-generated programs run in killable child processes (CPU time via rusage, process death, recovered panics), strace syscall log between marker syscalls, walk of the reachable global environment, value round trips",
       "Held on the executed scripts except three known findings in gopher-lua's Go-implemented string library (deadline not seen / stack overflow).",
-      "CPU-time bound 5 s for a 1 s deadline; memory and nesting bombs excluded as the property says.", "DESIGN.md §4 C16")
+      "CPU-time bound 10 s for a 1 s deadline (2-10 s recorded as observations); memory and nesting bombs excluded as the property says.", "DESIGN.md §4 C16")
 claim("C17", "E2-drivers", "exploration", "runtime monitoring: the real advanced deployment reconciler in a mini closed loop against ReplicaSet-level actors; every ReplicaSet spec.replicas write judged with own ceil/clamp arithmetic",
       "Held on 4k (quick) / 200k (thorough) histories x <= 40 actions except two known findings (new ReplicaSet lower bound of 1).",
       "Deletion preference of a ReplicaSet modelled as unavailable-first (as the code comments assume).", "DESIGN.md §4 C17")
 claim("C18", "E1-clustersim", "fault_enumeration", E1_TECH + "; cleanup predicate evaluated at every write that removes one of the three finalizers",
       "Held on the explored executions: deletion / disable / rollback / supersession injected at random (step, sub-state); every Rollout and BatchRelease finalizer removal checked in its snapshot.",
       E1_NOTE + " TrafficRouting CR scenarios are not generated yet (its finalizer ordering was fixed from reading + spike).", "DESIGN.md §4 C18")
+claim("C19", "E1-clustersim", "exploration", "runtime monitoring under the Go race detector (-race worker binary, GORACE halt_on_error=0 log_path, DATA RACE blocks counted and deduplicated by the parent): several rollouts with colliding names in ONE simulated cluster served by ONE set of real reconcilers, reconciles on real goroutines (3 workers per controller, key-exclusive); per-tenant online monitors and final-state comparison with the same scenario run alone; plus porcupine v1.3.0 linearizability checks of recorded histories on grace expectations / ResourceExpectations and concurrent Lua calls compared with solo calls",
+      "Held on the executions produced: 40 multi-tenant runs (2-3 tenants each), 16 histories of 4-32 clients and 8 x 96 concurrent Lua calls per quick run; no DATA RACE report, no worker death, every compared tenant ends as when run alone. The race detector only sees interleavings that happened.",
+      E1_NOTE + " Grace periods are 0, so the Expect/wait/Observe path of the grace table is exercised by the history checker only, not by the closed loop; a grace key built without the namespace is therefore outside what the quick tier can see (DESIGN.md §11.3).", "DESIGN.md §4 C19, §11.2")
 claim("C20", "E2-drivers", "exploration",
       "runtime monitoring: real ConvertTo/ConvertFrom executed on generated objects, round-trip compared under an independent meaning normal form; panics recovered and reported",
       "Held on N generated objects per run (200k quick / 2M thorough) covering every optional block nil/present in both directions; sampling of an unbounded input language, not a proof.",
